@@ -8,6 +8,7 @@ META = {
         "Static analysis over rustc MIR. Decides: (1) Drop typestate per (detached, external, ExecutionStatus): detached -> nothing; external -> un-patch, clear watchpoints, PTRACE_DETACH every thread, SIGCONT, and no SIGKILL reachable; launched/Unload -> SIGKILL then waitpid; launched/InProgress -> un-patch, clear watchpoints, detach, SIGKILL, reap until the main pid; launched/Exited -> no kill; detach() performs the external sequence and sets the flag Drop tests first; "
         "(2) restart: kill+reap only when not exited, re-install, registry pid update over both maps, continue; the entry-point breakpoint template exists from construction, and hibernation keeps numbers/places (shared with C02); every stop reason that marks the debuggee Exited hibernates the registry; "
         "(3) exit-code provenance: every exit code placed in StopReason::DebugeeExit, Error::ProcessExit, the on_exit hook or the DAP exited event flows from the wait status / another such value, never from a literal (except where the process vanished and no code exists)."
+        " (4) the external/launched mark: Some only in the attaching constructor, literal None for forked/own processes; (5) shared with C14: the debug-register image distributed to new threads follows every add/remove."
     ),
     "not_decided": "that no process is in fact left behind (kernel); that breakpoints hit at the same places after restart (needs execution)",
     "assumptions": ["SIGKILL cannot be blocked; PTRACE_DETACH resumes a stopped tracee only with SIGCONT for group-stopped external processes"],
